@@ -801,7 +801,54 @@ func TestVerifC15(t *testing.T) {
 			}
 			o.line(fmt.Sprintf("supervisor-start %d cs", up), r)
 		}
+		// the SDK's own path for an address change (Driver.UpdateDevice) while the reader is unreachable: away and back again
+		// — the service must end up dialling the address it was told last
+		for _, seq := range []string{"ABA", "AB", "ABAB"} {
+			o.line(fmt.Sprintf("same x%02x x%02x", seq[len(seq)-1], runUpdateDevice(seq)), "yes")
+		}
 		vTrySend(t, o)
+	}
+}
+
+// runUpdateDevice: a device registered at address A whose reader is unreachable is given the addresses of `seq` (after
+// the initial A) through Driver.UpdateDevice; then both addresses start to accept connections. Returns the letter of
+// the address the service connects to first (0 = neither within the deadline).
+func runUpdateDevice(seq string) (obs byte) {
+	defer func() {
+		if r := recover(); r != nil {
+			obs = 'P'
+		}
+	}()
+	w := newWorld(false)
+	defer w.cleanup()
+	protos := map[byte]map[string]contract.ProtocolProperties{}
+	for i, l := range []byte{'A', 'B'} {
+		host, port, _ := net.SplitHostPort(w.addrs[i].tcp)
+		protos[l] = map[string]contract.ProtocolProperties{"tcp": {"host": host, "port": port}}
+	}
+	if err := w.d.AddDevice(w.name, protos[seq[0]], contract.Unlocked); err != nil {
+		return 'E'
+	}
+	w.d.devicesMu.RLock()
+	w.dev = w.d.activeDevices[w.name]
+	w.d.devicesMu.RUnlock()
+	time.Sleep(60 * time.Millisecond)
+	for i := 1; i < len(seq); i++ {
+		_ = w.d.UpdateDevice(w.name, protos[seq[i]], contract.Unlocked)
+		time.Sleep(30 * time.Millisecond)
+	}
+	if w.listen(0, true) != nil || w.listen(1, true) != nil {
+		return 'L'
+	}
+	select {
+	case c := <-w.conns[0]:
+		c.Close()
+		return 'A'
+	case c := <-w.conns[1]:
+		c.Close()
+		return 'B'
+	case <-time.After(4 * time.Second):
+		return 0
 	}
 }
 
